@@ -1,6 +1,7 @@
 package checks
 
 import (
+	"bytes"
 	"encoding/json"
 	"fmt"
 	"io"
@@ -53,6 +54,12 @@ type copyCase struct {
 	Mutation string `json:"mutation,omitempty"`
 	Target   string `json:"mutated_path,omitempty"`
 	Swap     bool   `json:"swap_arguments,omitempty"`
+	// Pre: the destination already holds, at every path of the source, a file that is 777 bytes LONGER (an earlier copy
+	// of a tree whose files have since shrunk)
+	Pre bool `json:"destination_prepopulated,omitempty"`
+	// KeepExcluded: the excluded names stay present on both sides of the comparison (they are invisible to CompareFS;
+	// the mutation is applied to what it is meant to see)
+	KeepExcluded bool `json:"excluded_names_present,omitempty"`
 	Desc     any    `json:"tree,omitempty"`
 }
 
@@ -206,6 +213,32 @@ func runCopyCase(c *copyCase, t *treeSpec) (sig, msg, outcome string) {
 	if err != nil {
 		return "", "", "dest-unavailable"
 	}
+	if c.Pre {
+		tag += "|over-longer-files"
+		_, vf := withoutExcluded(t)
+		var perr error
+		if pm := guard(func() {
+			for p, b := range vf {
+				if i := strings.LastIndex(p, "/"); i > 0 {
+					if perr = dst.fs.Mkdir(p[:i]); perr != nil {
+						return
+					}
+				}
+				f, e := dst.fs.OpenFile(p, os.O_CREATE|os.O_RDWR)
+				if e != nil {
+					perr = e
+					return
+				}
+				old := bytes.Repeat([]byte{0xEE}, len(b)+777)
+				if _, e := f.Write(old); e != nil {
+					perr = e
+				}
+				f.Close()
+			}
+		}); pm != "" || perr != nil {
+			return "", "", "dest-unavailable"
+		}
+	}
 	var cerr error
 	if pm := guard(func() { cerr = dsync.CopyFileSystem(src, dst.fs) }); pm != "" {
 		return "copy|" + tag + "|" + pm, "CopyFileSystem panicked: " + pm, "panic"
@@ -316,7 +349,7 @@ func mutationsOf(t *treeSpec) []mutation {
 	}
 	dirs := append([]string{"."}, t.Dirs...)
 	for _, d := range dirs {
-		ms = append(ms, mutation{"add-file", d}, mutation{"add-dir", d})
+		ms = append(ms, mutation{"add-file", d}, mutation{"add-dir", d}, mutation{"add-file-early", d}, mutation{"add-dir-early", d})
 		if d != "." {
 			ms = append(ms, mutation{"remove-dir", d}, mutation{"dir-to-file", d})
 		}
@@ -362,6 +395,17 @@ func applyMutation(t *treeSpec, m mutation) fstest.MapFS {
 		delete(fs, m.Path)
 	case "to-dir":
 		fs[m.Path] = &fstest.MapFile{Mode: iofs.ModeDir | 0o755, ModTime: mt}
+	case "add-file-early", "add-dir-early":
+		// names that sort before every other name of the directory (also before ".DS_Store")
+		p := "!early"
+		if m.Path != "." {
+			p = m.Path + "/" + p
+		}
+		if m.Name == "add-dir-early" {
+			fs[p] = &fstest.MapFile{Mode: iofs.ModeDir | 0o755, ModTime: mt}
+		} else {
+			fs[p] = &fstest.MapFile{Data: nil, Mode: 0o644, ModTime: mt}
+		}
 	case "add-file":
 		p := "zz-extra.txt"
 		if m.Path != "." {
@@ -405,9 +449,14 @@ func runCompareCase(c *copyCase, t *treeSpec) (sig, msg, outcome string) {
 		return ds, nil
 	}()
 	orig := treeToMapFS(vis)
+	base := vis
+	if c.KeepExcluded {
+		orig = treeToMapFS(t)
+		base = t
+	}
 	if c.Mutation == "none" {
 		var err error
-		if pm := guard(func() { err = dsync.CompareFS(orig, treeToMapFS(vis)) }); pm != "" {
+		if pm := guard(func() { err = dsync.CompareFS(orig, treeToMapFS(base)) }); pm != "" {
 			return "compare|identical|" + pm, pm, "panic"
 		}
 		if err != nil {
@@ -415,7 +464,7 @@ func runCompareCase(c *copyCase, t *treeSpec) (sig, msg, outcome string) {
 		}
 		return "", "", "identical-ok"
 	}
-	mut := applyMutation(vis, mutation{c.Mutation, c.Target})
+	mut := applyMutation(base, mutation{c.Mutation, c.Target})
 	if mut == nil {
 		return "", "", "n/a"
 	}
@@ -431,6 +480,9 @@ func runCompareCase(c *copyCase, t *treeSpec) (sig, msg, outcome string) {
 		order := "orig,mutated"
 		if c.Swap {
 			order = "mutated,orig"
+		}
+		if c.KeepExcluded {
+			order += "|excluded-names-present"
 		}
 		return "compare|difference-missed|" + c.Mutation + "|" + order, fmt.Sprintf("CompareFS returned nil although the target differs by %s of %s", c.Mutation, c.Target), "missed"
 	}
@@ -579,6 +631,21 @@ func C16(r *ev.Run) {
 				cases = append(cases, copyCase{Kind: "copy", Tree: ti, Tier: r.Tier, Src: s, Dst: d})
 			}
 		}
+		// a second copy over a destination that already holds longer files at the same paths
+		if !r.Quick() || ti%3 == 0 || ti >= len(trees)-2 {
+			for di, d := range dsts {
+				if r.Quick() && (ti+di)%2 != 0 && ti < len(trees)-2 {
+					continue
+				}
+				if d == "ext4" {
+					// ext4's OpenFile ignores O_TRUNC altogether (the C04 statement accordingly lists no truncating open for
+					// ext4); a copy over longer files is therefore only judged on the FAT destinations, where a truncating
+					// open is part of the stated behaviour (C01)
+					continue
+				}
+				cases = append(cases, copyCase{Kind: "copy", Tree: ti, Tier: r.Tier, Src: "mapfs", Dst: d, Pre: true})
+			}
+		}
 		if r.Quick() && ti%3 != 0 && ti < len(trees)-2 {
 			continue
 		}
@@ -589,10 +656,17 @@ func C16(r *ev.Run) {
 			vis.Dirs = append(vis.Dirs, k)
 		}
 		sort.Strings(vis.Dirs)
+		hasExcluded := len(vf) != len(trees[ti].Files)
 		for _, m := range mutationsOf(vis) {
 			for _, sw := range []bool{false, true} {
 				cases = append(cases, copyCase{Kind: "compare", Tree: ti, Tier: r.Tier, Mutation: m.Name, Target: m.Path, Swap: sw})
+				if hasExcluded {
+					cases = append(cases, copyCase{Kind: "compare", Tree: ti, Tier: r.Tier, Mutation: m.Name, Target: m.Path, Swap: sw, KeepExcluded: true})
+				}
 			}
+		}
+		if hasExcluded {
+			cases = append(cases, copyCase{Kind: "compare", Tree: ti, Tier: r.Tier, Mutation: "none", KeepExcluded: true})
 		}
 	}
 	outcomes := newDistinct()
@@ -638,7 +712,7 @@ func C16(r *ev.Run) {
 	r.Set("evaluations", int64(done))
 	r.Set("distinct_nontrivial", int64(ok.n()))
 	r.Set("distinct_outcomes", outcomes.snapshot())
-	r.Set("rule", "trees: every ordered forest with <= 4 (quick: 3) nodes x name/size rotations (sizes {0,1,2047,2048,2049}), a tree with the excluded names at the root and nested, a tree of files sized around CompareFS's 32 KiB chunk; copy: source {MapFS, os directory, fat32, ext4, iso9660, squashfs} x destination {fat12, fat16, fat32, ext4}, destination compared with the source by an independent walk, CompareFS on the faithful copy in both argument orders; a 64 MiB+1234-byte file from a synthetic sparse source through the streaming branch; compare: for every tree every single-point mutation (per file: flip first/last/byte 32767/byte 32768, drop last byte, append a byte, remove, turn into a directory; per directory: add a file, add a directory, remove it, turn it into a file) in both argument orders must be reported. non-trivial = distinct copy cases verified end to end + distinct mutations detected")
+	r.Set("rule", "trees: every ordered forest with <= 4 (quick: 3) nodes x name/size rotations (sizes {0,1,2047,2048,2049}), a tree with the excluded names at the root and nested, a tree of files sized around CompareFS's 32 KiB chunk; copy: source {MapFS, os directory, fat32, ext4, iso9660, squashfs} x destination {fat12, fat16, fat32, ext4}, destination compared with the source by an independent walk, CompareFS on the faithful copy in both argument orders; a 64 MiB+1234-byte file from a synthetic sparse source through the streaming branch; compare: for every tree every single-point mutation (per file: flip first/last/byte 32767/byte 32768, drop last byte, append a byte, remove, turn into a directory; per directory: add a file or a directory whose name sorts last, or first, remove it, turn it into a file) in both argument orders must be reported, for the tree with excluded names also with those names present on both sides; copies also into a destination that already holds longer files at the same paths. non-trivial = distinct copy cases verified end to end + distinct mutations detected")
 	r.Set("exhaustive", done >= len(cases))
 	_ = filepath.Join
 	_ = filesystem.ErrNotSupported
